@@ -26,7 +26,7 @@ def chain_of(st):
     return out
 
 
-def proj(st, rk):
+def proj(st, rk, wk=None):
     owner = st["owner"]
     for r, k in rk.items():
         if k == "dtor" and st["rpc"][r] == "done":
@@ -39,6 +39,7 @@ def proj(st, rk):
     return {
         "allocs": 0,
         "chain": chain_of(st),
+        "cbnext": {w: st["nxt"][w] for w, k in (wk or {}).items() if k == "cb"},
         "owner": owner,
         "pend": pend,
         "res": st["rres"] or {},
@@ -76,7 +77,7 @@ def run_mix(ctx, rp, rmix, wmix, tag, max_paths=None, extra_random=0):
         return {"R": rk, "W": wk}
 
     def pj(st):
-        return proj(fix_empty(dict(st)), rk)
+        return proj(fix_empty(dict(st)), rk, wk)
     must = list(ACTIONS)
     if not wmix:
         must = [a for a in must if a not in ("CheckReady", "SubCAS")]
